@@ -99,6 +99,7 @@ theorem step_indep (beh : Behaviour) (s s' : TermState) (op : Op) (hp : op.posit
   | altBuffer => simp only [step]; exact ⟨trivial, hl, hv⟩
   | setSize e => simp [Op.positionFree] at hp
   | rawWrite bs => simp [Op.positionFree] at hp
+  | input bs => simp only [step]; exact ⟨trivial, hl, hv⟩
 
 -- ------------------------------------------------------------------ cursor moves from ANY believed position
 /-- CUP with non-negative coordinates only touches the cursor (where it lands depends on the real size) -/
